@@ -207,6 +207,36 @@ Definition cadence_ok (i t0 : Z) (l : list Z) : bool :=
   | t1 :: r => period_ok i (t1 - t0) && ticks_from t1 (t1 - t0) r
   end.
 
+(* ---- polls that take time.  The loop (store.go:563-591) waits on a time.Ticker created once with
+   the period p: ticks fire on the fixed grid t0 + k*p whatever the receiver does, the channel
+   buffers ONE tick (further ticks that fire while it is full are dropped), `Done` does nothing for
+   the standard ticker.  So a poll that starts at s and lasts d is followed by a poll that starts
+   at the first grid tick after s if the loop is idle again by then, and otherwise immediately
+   when the running poll ends (the buffered tick). *)
+Definition next_start (t0 p s d : Z) : Z :=
+  let f := (s + d)%Z in
+  let g := (t0 + ((s - t0) / p + 1) * p)%Z in
+  if (g <=? f)%Z then f else g.
+Fixpoint starts_from (t0 p s : Z) (ds : list Z) : list Z :=
+  match ds with [] => [s] | d :: r => s :: starts_from t0 p (next_start t0 p s d) r end.
+(* start instants of the polls of a loop started at t0, given the durations of the polls *)
+Definition starts (t0 p : Z) (ds : list Z) : list Z := starts_from t0 p (t0 + p)%Z ds.
+
+(* monitor on the observed (start, end) instants of consecutive polls *)
+Fixpoint follows (t0 p s e : Z) (l : list (Z * Z)) : bool :=
+  match l with
+  | [] => true
+  | (s', e') :: r => (s' =? next_start t0 p s (e - s))%Z && (s' <=? e')%Z && follows t0 p s' e' r
+  end.
+Definition cadence2_ok (i t0 : Z) (l : list (Z * Z)) : bool :=
+  match l with
+  | [] => false
+  | (s1, e1) :: r => period_ok i (s1 - t0) && (s1 <=? e1)%Z && follows t0 (s1 - t0) s1 e1 r
+  end.
+(* durations of all polls but the last *)
+Fixpoint durs_init (s e : Z) (l : list (Z * Z)) : list Z :=
+  match l with [] => [] | (s', e') :: r => (e - s)%Z :: durs_init s' e' r end.
+
 Arguments SDel {V}.
 Arguments EEnd {V}.
 Arguments EShutdown {V}.
